@@ -33,7 +33,21 @@ fn gen(t: &mut Tape, _tier: Tier) -> Scenario {
         sc.set_i("ep", if which == 2 { EP_STREAM } else { EP_LZMA });
         sc.set_b("input", b.std_file());
     }
-    let dict = b.dict;
+    // "lying header": the same stream under a header that announces a huge
+    // dictionary and a huge size — nothing may be reserved on the strength of it
+    if which != 3 && t.below(5) == 0 {
+        let mut f = sc.b("input").to_vec();
+        let big_dict: u32 = [0x4000_0000u32, 0xFFFF_FFFF, 0x1000_0000][t.below(3) as usize];
+        f[1..5].copy_from_slice(&big_dict.to_le_bytes());
+        if !b.marker {
+            // declared size larger than what the payload holds: both runs must fail
+            f[5..13].copy_from_slice(&(0x4000_0000u64).to_le_bytes());
+            sc.set_i("lying_size", 1);
+        }
+        sc.set_b("input", f);
+        sc.set_i("lying_header", 1);
+    }
+    let dict = if sc.i("lying_header") == 1 { 0x1000_0000u64.max(b.dict) } else { b.dict };
     let produced = b.expect.len() as u64;
     let need = dict.min(produced);
     let m: u64 = match t.below(9) {
@@ -125,10 +139,24 @@ fn exec(sc: &Scenario, ctx: &mut Ctx) -> Vec<Violation> {
             return vec![Violation::new("panic", &panic_locus(p), p.clone(), sc)];
         }
     }
-    if !v0.is_ok() || out0 != sc.b("expect") {
+    let lying_size = sc.i("lying_size") == 1;
+    if lying_size {
+        ctx.stats.hit("probe.header_announces_more_than_the_payload_holds");
+        if v0.is_ok() {
+            return mk("unlimited_run_wrong", "declared size exceeds the payload, yet success".into());
+        }
+    } else if !v0.is_ok() || out0 != sc.b("expect") {
         return mk("unlimited_run_wrong", format!("without a limit: {}", v0.short()));
     }
-    if m >= need {
+    if sc.i("lying_header") == 1 {
+        ctx.stats.hit("probe.header_announces_huge_dictionary");
+    }
+    if lying_size {
+        // both runs fail at the end of the input; delivered bytes must be a prefix
+        if v1.is_ok() || bad1.is_some() {
+            return mk("limit_changes_result", format!("limited run: {}", v1.short()));
+        }
+    } else if m >= need {
         if v1.kind() != v0.kind() || out1 != out0 {
             return mk(
                 "limit_changes_result",
@@ -149,7 +177,11 @@ fn exec(sc: &Scenario, ctx: &mut Ctx) -> Vec<Violation> {
     // heap: literal table + fixed decoder state + window (Vec growth factor 2) + slack
     let table = 2usize * (0x300usize << sc.i("lclp"));
     let window = 2 * (m.min(need).max(8) as usize);
-    let slack = 96 * 1024 + (events as usize) * 96;
+    let slack = 16 * 1024;
+    ctx.stats.max(
+        "max_heap_excess_over_table_and_window_bytes",
+        peak.saturating_sub(table + window) as u64,
+    );
     let bound = table + window + slack;
     ctx.stats.max("max_heap_peak_minus_table_bytes", peak.saturating_sub(table) as u64);
     if peak > bound {
@@ -164,12 +196,12 @@ fn exec(sc: &Scenario, ctx: &mut Ctx) -> Vec<Violation> {
 pub static C10: SimpleProp = SimpleProp {
     id: "C10",
     level: "exploration",
-    rule: "one evaluation = one pair (unlimited run, run with memlimit m) of a valid reference-encoded stream, m in {0, need-1, need, need+1, dict-1, dict, max, random} with need = min(dictionary, bytes produced), through lzma_decompress_with_options, Stream under a random history, or the raw decoder (dictionary 1..5000); m >= need: identical verdict and bytes; m < need: Err and delivered bytes are a model prefix; heap peak of the limited run (metering allocator) <= literal table + 2*max(min(m,need),8) + 96 KiB; non-trivial = need > 0; distinct by scenario hash",
+    rule: "one evaluation = one pair (unlimited run, run with memlimit m) of a valid reference-encoded stream, m in {0, need-1, need, need+1, dict-1, dict, max, random} with need = min(dictionary, bytes produced), through lzma_decompress_with_options, Stream under a random history, or the raw decoder (dictionary 1..5000); m >= need: identical verdict and bytes; m < need: Err and delivered bytes are a model prefix; heap peak of the limited run (metering allocator) <= literal table + 2*max(min(m,need),8) + 16 KiB (only allocations made while library code runs are metered); a fifth of the header-carrying streams are re-headed to announce a 256 MiB-4 GiB dictionary (and, for size-bounded ones, a 1 GiB size); non-trivial = need > 0; distinct by scenario hash",
     runs_quick: 60_000,
     runs_thorough: 3_000_000,
     both_profiles: false,
     assumptions: &[
-        "factor 2 on the window accounts for Vec growth; 96 KiB slack covers the boxed decoder state and the driver's own event records (stated, not hidden)",
+        "factor 2 on the window accounts for Vec growth; 16 KiB slack (worst clean excess observed: about 4 KiB, see maxima) covers the boxed decoder state; the driver's own records are not metered",
         "valid streams only: for corrupted input 'bytes produced' is not observable from outside",
     ],
     gen,
